@@ -397,6 +397,13 @@ class BuiltB(Built):
 
 
 @symbol
+@dataclass
+class BuiltEq(Built):
+    """an inferred class whose instances compare equal when their fields do (dataclass eq): distinct bindings can build equal
+    instances, which are still distinct results"""
+
+
+@symbol
 @dataclass(eq=False)
 class BuiltEmpty(Built):
     """an inferred class whose instances are falsy (container-like and empty)"""
